@@ -76,6 +76,7 @@ def setup_process():
     import warnings
     warnings.simplefilter("ignore")
     snapshot_process_state()
+    core.FRESH_PROCESS_HOOK = reset_process_state
     _ENV_READY = True
 
 
